@@ -6,8 +6,15 @@ C19 driver.  Requests (all strings hex; `{B}` inside a directory, an IRI or a fi
 the absolute path of the sandbox base: the real temp directory on the Rust side, `/sbx` here):
 
   g <cfg> <fs> <iri>          `LocalLoader::new(cfg)` then `get(iri)`
-  l <cfg> <fs> <iri> <pred>   `get_resource(iri)` then `Resource::get_resource(pred)`: the link is followed by
-                              the real code only; the model contributes the oracle
+  l <cfg> <fs> <iri> <pred> [<mode> [<link>]]
+                              `get_resource(iri)` then a link of the loaded document is followed through one of
+                              the entry points of `Resource` (all of them are `get_neighbour`).  When the request
+                              names the absolute IRI planted verbatim in the data (N-Triples documents) the
+                              model runs `getNeighbour` on it and predicts what is read; otherwise (Turtle:
+                              the parser resolves the reference) it contributes the oracle only
+  j <cfg> <fs> <iri>          JSON-LD document with remote contexts: oracle only (which IRIs the JSON-LD
+                              processor asks for is not modelled; each of them goes through `ctxFetch` = `get`)
+  y <cfg> <fs> <iri> <kind>   sandbox with symbolic links (`s:` entries, ignored here): no prediction
 
   cfg = `-` | `<ns>:<dir>(,<ns>:<dir>)*`
   fs  = `-` | entry(,entry)*  with entry = `f:<relpath>` (file with the canonical marker content)
@@ -31,10 +38,14 @@ def substB : Nat → Str → Str
 
 def subst (s : Str) : Str := substB (s.length + 1) s
 
-/-- canonical content of an `f:` entry: valid Turtle and N-Triples, unique per path -/
+/-- canonical content of an `f:` entry, unique per path: valid Turtle and N-Triples, or (name ending
+in `.jsonld`) a JSON-LD document that is also usable as a remote context -/
 def marker (rel : String) : Str :=
   let h := hexOfString rel
-  ("<urn:vh:file:" ++ h ++ "> <urn:vh:is> \"" ++ h ++ "\" .\n").toList
+  if rel.endsWith ".jsonld" then
+    ("{\"@context\":{\"vhmark\":\"urn:vh:ctx:" ++ h ++ "\"},\"@id\":\"urn:vh:file:" ++ h ++
+      "\",\"urn:vh:is\":\"" ++ h ++ "\"}\n").toList
+  else ("<urn:vh:file:" ++ h ++ "> <urn:vh:is> \"" ++ h ++ "\" .\n").toList
 
 def parseCfg (tok : String) : Option (List (Str × Str)) :=
   if tok == "-" then some [] else
@@ -54,16 +65,18 @@ def parseFs (tok : String) : Option FS :=
     match e.splitOn ":" with
     | ["f", p] => do
       let rel ← stringOfHex p
-      pure (relLoc rel, Node.file (marker rel))
+      pure (some (relLoc rel, Node.file (marker rel)))
     | ["d", p] => do
       let rel ← stringOfHex p
-      pure (relLoc rel, Node.dir)
+      pure (some (relLoc rel, Node.dir))
     | ["c", p, c] => do
       let rel ← stringOfHex p
       let content ← charsOfHex c
-      pure (relLoc rel, Node.file (subst content))
+      pure (some (relLoc rel, Node.file (subst content)))
+    -- a symbolic link: the model's file system has none (assumption of the property)
+    | ["s", _, _] => pure none
     | _ => none)
-  pure ⟨(baseLoc, .dir) :: es⟩
+  pure ⟨(baseLoc, .dir) :: es.filterMap id⟩
 
 def newErrName : NewErr → String
   | .iriMustEndWithSlash => "slash"
@@ -85,6 +98,41 @@ def readName (p : Str) : String :=
   | [] => "outside"
 
 def feats : Features := allFeats
+
+def modes : List String := ["one", "any", "all", "items", "pred"]
+
+/-- `l` requests.  With `link = some t` (an absolute IRI planted verbatim in an N-Triples document):
+`get_resource(doc)` then `get_neighbour` on `t`, the base being the fragment-less document IRI. -/
+def handleL (c f i p : String) (link : Option Str) : String :=
+  match parseCfg c, parseFs f, charsOfHex i, charsOfHex p with
+  | some caches, some fs, some doc0, some _ =>
+    match Loader.new fs caches with
+    | .error e => reply [kv "new" (newErrName e)]
+    | .ok cfg =>
+      -- `linkdiff` (following a link reads what `get` reads for that IRI) is model behaviour, not the property
+      let oracle := [kv "new" "ok", kv "o.escaped" "0", kv "linkdiff" "0"]
+      match link with
+      | none => reply oracle
+      | some t0 =>
+        let doc := subst doc0
+        let t := subst t0
+        match getResourceRead (getCur feats) cfg fs doc with
+        | .err _ => reply oracle
+        | .ok _ _ _ =>
+          -- N-Triples terms are absolute IRIs (the generator plants nothing else there)
+          match getNeighbour (fun _ => true) (getCur feats) cfg fs (some (stripFragment doc)) t with
+          | .notAbsolute => reply (oracle ++ [kv "fres" "notabsolute", kv "read" "none"])
+          | .sameDoc => reply (oracle ++ [kv "fres" "samedoc", kv "read" "none"])
+          | .loaded (.ok q _ _) =>
+            reply (oracle ++ [kv "fres" "read", kv "read" (readName q),
+                              kvB "mescaped" (!decide (ConfinedAt cfg t q))])
+          | .loaded (.err e) =>
+            let r := match e with
+              | .unsupported => "unsupported"
+              | .notFound => "notfound"
+              | .io _ => "io"
+            reply (oracle ++ [kv "fres" r, kv "read" "none"])
+  | _, _, _, _ => "bad-hex"
 
 def handle (line : String) : String :=
   match fields line with
@@ -110,13 +158,29 @@ def handle (line : String) : String :=
           reply [kv "new" "ok", kv "feat" "jsonld+xml", kv "res" r, kv "io" io, kv "read" "none", kv "ct" "none",
                  kv "escaped" "0", kv "o.escaped" "0", kvB "safe" safe, kvB "guard" Gen.LoaderExts.guardPresent]
     | _, _, _ => "bad-hex"
-  | ["l", c, f, i, p] =>
-    match parseCfg c, parseFs f, charsOfHex i, charsOfHex p with
-    | some caches, some fs, some _, some _ =>
+  | ["l", c, f, i, p] => handleL c f i p none
+  | ["l", c, f, i, p, m] => if modes.contains m then handleL c f i p none else "bad-op"
+  | ["l", c, f, i, p, m, g] =>
+    if !modes.contains m then "bad-op"
+    else if g == "-" then handleL c f i p none
+    else match charsOfHex g with
+      | some link => handleL c f i p (some link)
+      | none => "bad-hex"
+  | ["j", c, f, i] =>
+    match parseCfg c, parseFs f, charsOfHex i with
+    | some caches, some fs, some _ =>
       match Loader.new fs caches with
       | .error e => reply [kv "new" (newErrName e)]
-      | .ok _ => reply [kv "new" "ok", kv "o.escaped" "0", kv "o.linkdiff" "0"]
-    | _, _, _, _ => "bad-hex"
+      | .ok _ => reply [kv "new" "ok", kv "o.escaped" "0", kv "unlogged" "0", kv "spysame" "1"]
+    | _, _, _ => "bad-hex"
+  | ["y", c, f, i, k] =>
+    if k != "in" && k != "out" then "bad-op" else
+    match parseCfg c, parseFs f, charsOfHex i with
+    | some caches, some fs, some _ =>
+      match Loader.new fs caches with
+      | .error e => reply [kv "new" (newErrName e)]
+      | .ok _ => reply [kv "new" "ok"]
+    | _, _, _ => "bad-hex"
   | _ => "bad-op"
 
 abbrev State := Unit
